@@ -15,7 +15,7 @@
           ->  observations  <item> | closed | PANIC   (the context-error item E0 of the code as found is not shown)
    mget   <id> <fixed 0|1> <eq|floor|lower|ceil|higher> <origkeyhex> <nshards> <arrivals>
           arrivals = comma list of R<o|n|x>:<keyhex|*>:<sechex|*>:<payload> | E<e>
-          ->  observations: send:<res>,close | - | ...,PANIC       res = res:<keyhex>:<payload> | notfound | status | err<e>
+          ->  per arrival (";"-separated): send:<res>,close | - | PANIC       res = res:<keyhex>:<payload> | notfound | status | err<e>
 *)
 let kind_of_char = function
   | 'p' | 'P' -> M.KPut | 'd' | 'D' -> M.KDelete | 'r' | 'R' -> M.KDeleteRange | 'g' | 'G' -> M.KGet
@@ -181,9 +181,15 @@ let () = read_lines (fun line ->
       let l = if List.mem "PANIC" l then ["PANIC"] else l in
       Printf.printf "%s %s\n" id (join_or_dash "," l)
     | ["mget"; id; fixed; kc; orig; n; arr] ->
-      let (_, obs) = M.multi_get_slash (fixed = "1") (parse_kc kc) (bytes_of_hex orig)
-          (nat_of_int (int_of_string n)) (List.map parse_arrival (list_of arr)) in
-      Printf.printf "%s %s\n" id (join_or_dash "," (List.map string_of_gobs obs))
+      (* observations arrival by arrival: what the run over the first i+1 arrivals adds to the run over the first i *)
+      let arr = List.map parse_arrival (list_of arr) in
+      let run l = snd (M.multi_get_slash (fixed = "1") (parse_kc kc) (bytes_of_hex orig) (nat_of_int (int_of_string n)) l) in
+      let rec prefixes acc = function [] -> [] | x :: tl -> let p = acc @ [x] in p :: prefixes p tl in
+      let rec drop k l = if k = 0 then l else match l with [] -> [] | _ :: tl -> drop (k - 1) tl in
+      let (_, steps) = List.fold_left (fun (seen, out) p ->
+          let o = run p in (List.length o, out @ [drop seen o])) (0, []) (prefixes [] arr) in
+      Printf.printf "%s %s\n" id
+        (join_or_dash ";" (List.map (fun o -> join_or_dash "," (List.map string_of_gobs o)) steps))
     | [] | [""] -> ()
     | _ -> Printf.printf "?? bad line: %s\n" line
   with e -> Printf.printf "?? %s on line: %s\n" (Printexc.to_string e) line)
